@@ -1,5 +1,5 @@
 """C12 — fixed-size hint, reset and the generator's error contract (structural clauses)."""
-from ..rules import generator as gen
+from ..rules import generator as gen, piece
 
 EXPL = ("Decides, on the type-checked MIR of /repo: (1) SA-FIELDS: Generator::reset and BlockHashContext::reset give every field the "
         "same symbolic value as new(), except three reasoned exceptions each with a structural side condition (h_last only used under "
@@ -7,7 +7,9 @@ EXPL = ("Decides, on the type-checked MIR of /repo: (1) SA-FIELDS: Generator::re
         "element-wise); (2) SA-GUARD: the two refusals of set_fixed_input_size have exactly the stated conditions (size > 192 GiB; "
         "previous Some(e) with e != size) and finalisation fails with FixedSizeMismatch exactly when a declared size differs from the "
         "processed size, so no Ok is reachable then; (3) SA-ERRPURE: no store to *self on any path to an Err of set_fixed_input_size(_in_usize); "
-        "(4) SA-DELEGATE: all public finalisers obtain their result from finalize_raw_internal. NOT decided: that a correct hint "
+        "(4) SA-STEP: inside the engine step a fork happens exactly from a piece-less context while bhidx_end <= bhidx_end_limit, the limit "
+        "recorded by a declaration being min(NUM_VALID-1, index(size)+1), and the step table has no other row that depends on the declaration "
+        "besides the elimination border; the initial state (which reset restores) is the reviewed one; (5) SA-DELEGATE: all public finalisers obtain their result from finalize_raw_internal. NOT decided: that a correct hint "
         "leaves the hash value unchanged (fork-limit arithmetic).")
 
 
@@ -24,4 +26,7 @@ def run(ctx):
         ctx.guard("C12", "writers", lambda: gen.field_writers(ctx, prog))
         ctx.guard("C12", "reset", lambda: gen.reset_equals_new(ctx, prog))
         ctx.guard("C12", "reset-side", lambda: gen.reset_side_conditions(ctx, prog))
+        ctx.guard("C12", "init", lambda: piece.initial_state(ctx, prog))
+        if not c.startswith("unsafe"):
+            ctx.guard("C12", "piece", lambda: piece.piece_effects(ctx, prog))
     return ctx.finish(EXPL, ["rustc MIR faithfully represents the program", "symbolic values of single-assignment MIR temporaries compared as canonical text"])
